@@ -301,7 +301,7 @@ func (g *Gen) lightGoal(o *Obligation, e Expr, env *Env, cond string) {
 		goal := ne.eval(e).S
 		if c, ok := e.(*ECall); ok {
 			switch c.Fun {
-			case "preserved", "keptExcept", "keptSince", "keptExceptSince", "sameExcept":
+			case "preserved", "keptExcept", "keptSince", "keptExceptSince", "sameExcept", "keptOfType":
 				// frame builtins expand to generated universals over r! (and j!)
 				if sk, names := g.skolemiseGenerated(goal); len(names) > 0 {
 					nq++
@@ -546,7 +546,11 @@ func (g *Gen) presInstances(o *Obligation) {
 					continue
 				}
 				seen[key] = true
-				added = append(added, implies(pr.reach, fmt.Sprintf("(=> (<= %s %s) (= (select %s %s) (select %s %s)))", ref, pr.alloc, pr.cur, ref, pr.old, ref)))
+				bound := "(<= " + ref + " " + pr.alloc + ")"
+				if pr.etype != "" {
+					bound = "(and " + bound + " (= (arr.etype " + ref + ") " + pr.etype + "))"
+				}
+				added = append(added, implies(pr.reach, fmt.Sprintf("(=> %s (= (select %s %s) (select %s %s)))", bound, pr.cur, ref, pr.old, ref)))
 			}
 		}
 		o.LightExtra = append(o.LightExtra, added...)
